@@ -55,6 +55,21 @@ PROPS = {
         "level_text": "Insertion is checked on graphs that have a history, because that is where its defect classes live (index holes in the source, freed indices reused in the target so the mapping is not monotone, ports with several links, order links, metadata). The oracle observes both HUGRs through public queries before and after and checks isomorphism, root placement, frame and source-unmodified independently of the implementation's own mapping logic.",
         "level_note": "Trusted: oracles/iso.py. Later aliasing of metadata dicts between source and target is not asserted (the statement is about the moment of insertion). Operations are compared by identity or dataclass equality.",
     },
+    "C15": {
+        "engine": "D", "level": "exploration",
+        "tiers": {"quick": {"batches": 16, "runs": 2500, "budget_s": 45, "floor_runs": 3000},
+                  "thorough": {"batches": 64, "runs": 20000, "budget_s": 500, "floor_runs": 100000}},
+        "rule": "one run = one seeded sequence of track_wire / track_wires / track_inputs / untrack_wire / add / extend / "
+                "tracked_wire / set_indexed_outputs / set_tracked_outputs over a circuit of 0-4 qubit/bool inputs with mixed "
+                "integer and wire arguments and optional per-node metadata, executed in lock-step on a TrackedDfg and on a "
+                "plain Dfg whose integer arguments are resolved by an index model; compared after every step (tracked list, "
+                "nodes, links) and after close (outputs, JSON); non-trivial = >= 3 steps; distinct = distinct event-log digests",
+        "real": ["hugr.build.tracked_dfg.TrackedDfg, hugr.build.dfg.Dfg, graph store"], "stub": [],
+        "expected_probes": ["rebind", "untrack", "untracked_index_used", "index_used_twice_in_step"],
+        "technique": "lock-step refinement of two builders under one seeded step sequence, with an index model translating integer arguments; one faulty request (untracked index) may be injected, after which the run fail-stops",
+        "level_text": "The statement is an equivalence between two ways of driving a builder over all step sequences; the check runs both in lock-step under one seeded history and compares the tracked-wire list with an index model after every step and the two HUGRs node for node and link for link. An untracked index is injected as a faulty request in some runs and must raise IndexError.",
+        "level_note": "Trusted: the index model in props/c15.py. Integer arguments are placed only at positions below the operation's output count; negative indices are not generated (Python list semantics vs 'untracked' is ambiguous). After an IndexError the run stops (nothing is promised about the builder afterwards).",
+    },
     "C19": {
         "engine": "D", "level": "exploration",
         "tiers": {"quick": {"batches": 16, "runs": 1500, "budget_s": 40, "floor_runs": 4000},
